@@ -151,8 +151,11 @@ func (v *VM) exec() {
 			idx := int(codes[v.frame.N].A)
 			v.stack = v.stack[:len(v.stack)-1]
 			if fnc := v.globals.Read(idx); !fnc.IsNil() {
-				*fnc.value.(*funcT) = *val.value.(*funcT)
-				break
+				if old, ok := fnc.value.(*funcT); ok {
+					*old = *val.value.(*funcT)
+					break
+				}
+				// a script stored something else under the function's name: the definition replaces it
 			}
 			v.globals.Write(idx, val)
 
